@@ -61,7 +61,7 @@ pub fn spec(prop: &str) -> Spec {
             assumptions,
         },
         "C15" | "C16" | "C17" => Spec {
-            rule: "seeded cases; the tools are called in-process through their public entry functions with clap-parsed argument vectors; distinct = distinct hash of the case (inputs, flags, schedule plan); non-trivial = at least 2 input records/regions".to_string(),
+            rule: "seeded cases; the tools are called in-process through their public entry functions with clap-parsed argument vectors (C16: a tenth through the built multicall binary, a tenth with the input text on standard input); distinct = distinct hash of the case (inputs, flags, schedule plan); non-trivial = at least 2 input records/regions".to_string(),
             real: vec![
                 "bigtools::utils::cli::{bedgraphtobigwig, bedtobigbed, bigwigtobedgraph, bigbedtobed, bigwigmerge, bigwigaverageoverbed, bigwigvaluesoverbed} entry functions, compat_args, clap argument structs",
                 "bigtools::utils::{merge, fill, misc}",
@@ -81,7 +81,7 @@ pub fn spec(prop: &str) -> Spec {
             assumptions,
         },
         "C19" => Spec {
-            rule: "two thirds of the cases: batches of parser inputs (a generated schema with all its token-boundary truncations; 30 single-token mutations; the 41 schemas bed_autosql emits; blocks of 300 strings of the enumeration of all strings up to length 6 over the delimiter alphabet, with schema prefixes) parsed inside a worker process with a 1 GiB address-space cap and a stall watchdog; one third: bedtobigbed in-process with 0-40 extra columns, with or without a generated (1-6 declaration) schema. distinct = distinct case hash; non-trivial = a batch of at least 2 inputs / a conversion".to_string(),
+            rule: "two thirds of the cases: batches of parser inputs (a generated schema with all its token-boundary truncations; 30 single-token mutations; the 41 schemas bed_autosql emits; blocks of 300 strings of the enumeration of all strings up to length 6 over the delimiter alphabet, with schema prefixes) parsed inside a worker process with a 1 GiB address-space cap and a stall watchdog; one third: bedtobigbed with 0-40 extra columns, with or without a generated (1-6 declaration) schema, in-process or (a tenth) through the built binary with the BED piped in on standard input (`-`, `stdin`, `/dev/stdin`). distinct = distinct case hash; non-trivial = a batch of at least 2 inputs / a conversion".to_string(),
             real: vec![
                 "bigtools::bed::autosql::{parse::parse_autosql, bed_autosql}",
                 "bigtools::utils::cli::bedtobigbed, BigBedRead::autosql / header.field_count",
